@@ -10,11 +10,12 @@
 (* Focus \in {"C06","C07","C08","C09","C13","C01","C12","C16"}; Tier \in   *)
 (* {"quick","thorough"} widens the atom sets / nesting.                    *)
 (***************************************************************************)
-EXTENDS VrlCore, Json
+EXTENDS VrlCore, Json, SequencesExt
 
 CONSTANTS Focus, Tier
 
 VARIABLE prog
+
 
 (* ---------- AST constructors ---------- *)
 Lit(v)        == [k |-> "lit", v |-> v]
@@ -249,12 +250,47 @@ Bodies01 == {<<s1>> : s1 \in Setters} \cup {<<s1, s2>> : s1 \in Setters, s2 \in 
             \cup (IF Thorough THEN {<<s1, s2, s3>> : s1 \in Setters, s2 \in Setters, s3 \in Setters} ELSE {})
 Progs_C01 == {PreludeT \o b \o <<u>> \o ObserveT : b \in Bodies01, u \in Users}
 
+(* ---------- C15: read-only paths ---------- *)
+\* one (thorough: up to two) writes in the neighbourhood of the read-only paths: the path itself,
+\* parents, children, positive / negative / out-of-range indices, removal, merge, metadata
+proot == <<>>
+pab == <<F("a"), F("b")>>
+Merge15 == Asg(TExt(proot), Op("merge", Q(proot), ObjN(<<"a">>, <<Lit(IntV(7))>>)))
+Writes15 ==
+  {Asg(TExt(pa), Lit(IntV(9))), Asg(TExt(pab), Lit(IntV(9))),
+   Asg(TExt(<<F("a"), I(0)>>), Lit(IntV(9))), Asg(TExt(<<F("a"), I(1)>>), Lit(IntV(9))),
+   Asg(TExt(<<F("a"), I(-1)>>), Lit(IntV(9))), Asg(TExt(<<F("a"), I(-3)>>), Lit(IntV(9))),
+   Asg(TExt(<<F("a"), I(4)>>), Lit(IntV(9))),
+   Asg(TExt(proot), ObjN(<<>>, <<>>)), Merge15,
+   Del(TExt(pa)), Del(TExt(<<F("a"), I(-1)>>)), Del(TExt(<<F("a"), I(0)>>)), Del(TExt(pab)), Del(TExt(proot)),
+   Asg(TMeta(<<F("m")>>), Lit(IntV(1))), Asg(TMeta(<<F("m"), F("k")>>), Lit(IntV(2))),
+   Asg(TMeta(proot), ObjN(<<>>, <<>>)), Del(TMeta(<<F("m")>>)),
+   Asg2(TExt(pa), TVar("err"), Call("to_int", <<Q(<<F("x")>>)>>)),
+   Asg2(TVar("ok"), TExt(pa), Call("to_int", <<Q(<<F("x")>>)>>)),
+   Iter("for_each", ObjN(<<"p">>, <<Lit(IntV(1))>>), <<"k", "v">>, <<Asg(TExt(<<F("a"), I(-1)>>), Var("v"))>>)}
+Progs_C15 == {<<w>> : w \in Writes15}
+             \cup (IF Thorough THEN {<<w1, w2>> : w1 \in Writes15, w2 \in Writes15} ELSE {})
+RoEntries == {[pre |-> pre, p |-> p, rec |-> r] :
+                pre \in {"event"}, p \in {proot, pa, pab, <<F("a"), I(0)>>, <<F("a"), I(1)>>, <<F("a"), I(-1)>>}, r \in BOOLEAN}
+             \cup {[pre |-> "meta", p |-> p, rec |-> r] : p \in {proot, <<F("m")>>, <<F("m"), F("k")>>}, r \in BOOLEAN}
+RoSets == {<<e>> : e \in RoEntries}
+          \cup (IF Thorough THEN {<<e1, e2>> : e1 \in RoEntries, e2 \in RoEntries} ELSE {})
+ASSUME Focus = "C15" => PrintT(<<"ROSETS", ToJson(SetToSeq(RoSets))>>)
+Events15 == << [ev |-> EmptyObj, meta |-> EmptyObj],
+               [ev |-> Obj([a |-> IntV(5), x |-> Str("7")]), meta |-> Obj([m |-> IntV(1)])],
+               [ev |-> Obj([a |-> Obj([b |-> IntV(1), c |-> IntV(2)])]), meta |-> Obj([m |-> Obj([k |-> IntV(1)])])],
+               [ev |-> Obj([a |-> Arr(<<IntV(1), IntV(2)>>), x |-> Str("q")]), meta |-> EmptyObj],
+               [ev |-> Obj([a |-> Arr(<<IntV(1), IntV(2), IntV(3)>>)]), meta |-> Obj([m |-> Str("s")])],
+               [ev |-> Obj([a |-> Arr(<<>>)]), meta |-> EmptyObj] >>
+
 (* ---------- selection ---------- *)
 Progs == CASE Focus = "C09" -> Progs_C09
            [] Focus = "C08" -> Progs_C08
            [] Focus \in {"C06", "C07"} -> Progs_Ctl
            [] Focus = "C13" -> Progs_C13
            [] Focus \in {"C01", "C02", "C12", "C16"} -> Progs_C01
+           [] Focus = "C17" -> Progs_C09 \cup Progs_C08
+           [] Focus = "C15" -> Progs_C15
 
 \* events the harness runs every program on
 Events == << [ev |-> EmptyObj, meta |-> EmptyObj],
@@ -264,16 +300,22 @@ Events == << [ev |-> EmptyObj, meta |-> EmptyObj],
              [ev |-> Obj([a |-> IntV(4), b |-> IntV(0), o |-> Obj([p |-> IntV(1), q |-> IntV(2)])]), meta |-> EmptyObj],
              [ev |-> Obj([a |-> Str("12"), o |-> Arr(<<IntV(1), Str("s"), IntV(1)>>)]), meta |-> Obj([c |-> IntV(1)])] >>
 
+\* C17: fault schedules = sets of at most MaxFaults ordinals among the first Window target
+\* operations of a run (ordinal 0 is Runtime::resolve's probe of the event root)
+Window == IF Thorough THEN 9 ELSE 7
+MaxFaults == IF Thorough THEN 2 ELSE 1
+Schedules == {S \in SUBSET (0..(Window - 1)) : Cardinality(S) >= 1 /\ Cardinality(S) <= MaxFaults}
+ASSUME Focus = "C17" => PrintT(<<"FAULTS", ToJson(SetToSeq({SetToSeq(S) : S \in Schedules}))>>)
+
 Init == prog \in Progs
 Next == UNCHANGED prog
 Spec == Init /\ [][Next]_prog
 
-ASSUME PrintT(<<"EVENTS", ToJson(Events)>>)
+ASSUME PrintT(<<"EVENTS", ToJson(IF Focus = "C15" THEN Events15 ELSE Events)>>)
 
 TypedFocus == Focus \in {"C01", "C02", "C12", "C16"}
 \* events conforming to the external kinds (membership decided by the spec's own InKind)
 Conforming(ext) == {e \in EvPool : InKind(e.ev, ext.target) /\ InKind(e.meta, ext.meta)}
-SetToSeq(S) == CHOOSE q \in [1..Cardinality(S) -> S] : \A i, j \in 1..Cardinality(S) : i # j => q[i] # q[j]
 ExtCases == {[ext |-> [target |-> ext.target, meta |-> ext.meta], extname |-> ext.name,
               events |-> SetToSeq(Conforming(ext))] : ext \in Exts}
 \* printed once: the external kinds to compile against, each with its conforming events; the
